@@ -633,6 +633,10 @@ class Pilot(object):
         start_wait = time.time()
         while self.state not in states:
 
+            # a final pilot will never reach the awaited state
+            if self.state in rps.FINAL:
+                break
+
             time.sleep(0.1)
             if timeout and (timeout <= (time.time() - start_wait)):
                 break
